@@ -24,6 +24,8 @@ type Module struct {
 	Cases []*CaseRun
 	// Asserts: also write the API assertion files (C01).
 	Asserts bool
+	// GenTimeout is the watchdog of one CLI run.
+	GenTimeout time.Duration
 }
 
 // CaseRun is a case plus everything observed about it.
@@ -59,6 +61,11 @@ func NewModule(e *Env, name string) (*Module, error) {
 		b, err := vref.Sources.ReadFile(p)
 		if err != nil {
 			return err
+		}
+		if strings.HasPrefix(p, "errs/") {
+			// the wrapErrorsUsing recorder lives at vcase/errs
+			os.MkdirAll(filepath.Join(dir, "errs"), 0o755)
+			return os.WriteFile(filepath.Join(dir, p), b, 0o644)
 		}
 		return os.WriteFile(filepath.Join(dir, "vref", p), b, 0o644)
 	})
@@ -171,6 +178,13 @@ func parseBuildErrors(out string) []pkgErr {
 	return res
 }
 
+func (m *Module) genTimeout() time.Duration {
+	if m.GenTimeout > 0 {
+		return m.GenTimeout
+	}
+	return 120 * time.Second
+}
+
 // Generate runs the real CLI once per case, in parallel.
 func (m *Module) Generate(bin string) {
 	Parallel(len(m.Cases), func(i int) {
@@ -182,7 +196,10 @@ func (m *Module) Generate(bin string) {
 			pats = []string{"./..."}
 		}
 		args = append(args, pats...)
-		cr.Gen = RunCmd(bin, args, RunOpts{Dir: cr.Dir, Env: m.Env.GoEnv(), Timeout: 120 * time.Second})
+		if cr.Case.RawArgs != nil {
+			args = cr.Case.RawArgs
+		}
+		cr.Gen = RunCmd(bin, args, RunOpts{Dir: cr.Dir, Env: m.Env.GoEnv(), Timeout: m.genTimeout()})
 		after := snapshot(cr.Dir)
 		cr.Written = map[string][]byte{}
 		for p, b := range after {
